@@ -67,7 +67,14 @@ def derived_filters(lang):
     import importlib
 
     mod = importlib.import_module("nunavut.lang.%s" % lang)
-    return [n for n, _e in DERIVED_EXPR[lang] if callable(getattr(mod, "filter_" + n, None))]
+    res = [n for n, _e in DERIVED_EXPR[lang] if callable(getattr(mod, "filter_" + n, None))]
+    for other in ("c", "cpp", "py"):
+        try:
+            if other != lang and callable(getattr(importlib.import_module("nunavut.lang.%s" % other), "filter_to_template_unique_name", None)):
+                res.append("xuniq_" + other)
+        except ImportError:
+            pass
+    return res
 
 
 def mirror_files(shape, lang, docs=False, have=None):
@@ -92,6 +99,10 @@ def mirror_files(shape, lang, docs=False, have=None):
         for n, e in DERIVED_EXPR[lang]:
             if have is None or n in have:
                 s += "G %s {{ %s }}\n" % (n, e)
+        # the unique-name filters of the OTHER languages, reachable from any template as ln.<language>.<filter>: per-file state like the target's own
+        for other in ("c", "cpp", "py"):
+            if other != lang and have is not None and ("xuniq_" + other) in have:
+                s += 'G xuniq_%s {{ "w" | ln.%s.to_template_unique_name }} {{ "w" | ln.%s.to_template_unique_name }}\n' % (other, other, other)
     if shape["inc"] and lang in ("c", "cpp"):
         s += "{% for i in T | includes %}I {{ i }}\n{% endfor %}"
     s += "\n" * shape["trail"]
